@@ -39,12 +39,19 @@ package datamodeldiagram
 //@   ghostset @mapupdate:map[string]datamodeldiagram.RelationshipParam counted
 //@   loop 1 step [every-reference-is-counted] attrType.GetTypeRef() != nil ==> ghost("counted")
 
+// A type that is not a primitive is never reported as a collection of primitives.
+//@ func getNames
+//@   maypanic
+//@   ensures [a-reference-is-not-a-primitive-collection] old(t.GetPrimitive()) == 0 ==> !result3
+//@   ensures [a-primitive-is-one] old(t.GetPrimitive()) != 0 ==> result3
+
 //@ func (*DataModelView).DrawTuple
 //@   requires v != nil && v.Symbols != nil && v.StringBuilder != nil && entity != nil && relationshipMap != nil
 //@   requires [numbers-below-size] forallstr(k, in(k, v.Symbols) ==> v.Symbols[k] != nil && v.Symbols[k].Order < len(v.Symbols))
 //@   ensures [numbers-still-below-size] forallstr(k, in(k, v.Symbols) ==> v.Symbols[k] != nil && v.Symbols[k].Order < len(v.Symbols))
 //@   loop 0 invariant [numbers-below-size] v.Symbols != nil && forallstr(k, in(k, v.Symbols) ==> v.Symbols[k] != nil && v.Symbols[k].Order < len(v.Symbols))
 //@   loop 1 invariant [numbers-below-size] v.Symbols != nil && relationshipMap != nil && forallstr(k, in(k, v.Symbols) ==> v.Symbols[k] != nil && v.Symbols[k].Order < len(v.Symbols))
+//@   loop 1 step [collection-flag-belongs-to-this-field] attrType.GetPrimitive() == 0 && attrType.GetList() == nil && attrType.GetSet() == nil && attrType.GetSequence() == nil && attrType.GetTypeRef() != nil ==> !isPrimitiveList
 //@   assert @mapupdate:map[string]datamodeldiagram.RelationshipParam [one-more-line-per-reference] (in(mapkey, maptarget) ==> stored.Count == maptarget[mapkey].Count + 1 && stored.Entity == maptarget[mapkey].Entity && stored.Relationship == maptarget[mapkey].Relationship) && (!in(mapkey, maptarget) ==> stored.Count == 1 && stored.Entity == mapkey)
 
 // The view: every type that is looked up is drawn by the drawer of its kind, with its own name and definition.
